@@ -186,13 +186,15 @@ Definition spec_write_fshort (n : N) : bytes :=
   let low := n mod 32768 in
   let high := (n / 32768) mod 256 in
   if high =? 0 then be_enc 2 low else be_enc 2 (low + 32768) ++ [high].
-Definition spec_read_fshort : dec_t N := fun s =>
-  bind (spec_read_uint 2 s) (fun low r =>
+(* fx1 = false: the short is read with ReadUint16 as written (finding C03-1 applies to it) *)
+Definition fixed_read_fshort (fx1 : bool) : dec_t N := fun s =>
+  bind (read_uint fx1 2 s) (fun low r =>
     if low <? 32768 then Ok (low, r)
     else bind (rd_byte r) (fun high r' => Ok (high * 32768 + (low - 32768), r'))).
+Definition spec_read_fshort : dec_t N := fixed_read_fshort true.
 
 Definition write_fshort (fx3 : bool) : N -> bytes := if fx3 then spec_write_fshort else impl_write_fshort.
-Definition read_fshort (fx3 : bool) : dec_t N := if fx3 then spec_read_fshort else impl_read_fshort.
+Definition read_fshort (fx1 fx3 : bool) : dec_t N := if fx3 then fixed_read_fshort fx1 else impl_read_fshort.
 
 Definition forge_max : N := 2097050.     (* ForgeMaxArrayLength = math.MaxInt32 & 0x1FFF9A *)
 
@@ -201,10 +203,10 @@ Definition write_bytes17 (fx3 ext : bool) (v : bytes) : res bytes :=
   if (if ext then forge_max <? len v else 32767 <? len v) then Err EOverLimit
   else Ok (write_fshort fx3 (len v) ++ v).
 (* ReadBytes17 up to its make *)
-Definition len_bytes17 (fx3 : bool) : dec_t N := fun s =>
-  bind (read_fshort fx3 s) (fun n r => if forge_max <? n then Err EOverLimit else Ok (n, r)).
-Definition read_bytes17 (fx2 fx3 : bool) : dec_t bytes := fun s =>
-  bind (len_bytes17 fx3 s) (fun n r => if fx2 then rd_full n r else rd_read n r).
+Definition len_bytes17 (fx1 fx3 : bool) : dec_t N := fun s =>
+  bind (read_fshort fx1 fx3 s) (fun n r => if forge_max <? n then Err EOverLimit else Ok (n, r)).
+Definition read_bytes17 (fx1 fx2 fx3 : bool) : dec_t bytes := fun s =>
+  bind (len_bytes17 fx1 fx3 s) (fun n r => if fx2 then rd_full n r else rd_read n r).
 
 (* ---------- counted sequences (ReadStringArray, ReadVarIntArray, ReadIntArray, ReadKeyArray,
    ReadProperties): VarInt count, then count elements.  The Go loops run until the first error;
